@@ -40,6 +40,7 @@ type glItem struct {
 	kind string // type | const | var | func
 	name string // X, or T.M for methods
 	inst string // for generic functions constrained by an interface: the concrete type to instantiate
+	enter string // glue function applied to the receiver on entry (what the model does when the call begins)
 }
 
 var leanKeywords = map[string]bool{"at": true, "from": true, "end": true, "then": true, "fun": true, "type": true,
@@ -73,6 +74,9 @@ type translator struct {
 	loopDepth int
 	tmpN      int
 	locals    map[string]bool // parameters and local variables (they shadow package names)
+	namedRes  []string        // named results (zero-initialised locals; a bare `return` returns them)
+	hoistOn   bool            // an effectful call met inside an expression is bound to a temporary first
+	hoistBuf  []string
 	refVars   map[string]bool // locals that are pointers into the receiver's store (see recvEffects.ref)
 	funcParam map[string]bool // parameters of function type (nil-able: Option (.. → ..))
 	outParams []string        // pointer parameters assigned through (`*v = e`): returned as extra results
@@ -133,6 +137,22 @@ var recvEffects = map[string]recvEffect{
 	"InMemoryRepository.heap.Len":       {"GoMem.heapLen", "pure", false},
 	"InMemoryRepository.heap.Peek":      {"GoMem.heapPeek", "pure", false},
 	"InMemoryRepository.orderedMap.Pairs": {"GoMem.omapPairs", "pure", false},
+	// the scheduler (scheduler/scheduler.go): every call on its repository / dispatcher / event queue is one action of
+	// the program-counter automaton Gk.World (Gk/GenGlueSched.lean)
+	"Scheduler.repo.LastTimerUpdateError": {"GoSched.repoLastTimerUpdateError", "pair", false},
+	"Scheduler.repo.StopTimer":            {"GoSched.repoStopTimer", "state", false},
+	"Scheduler.repo.StartTimer":           {"GoSched.repoStartTimer", "state", false},
+	"Scheduler.repo.GetNext":              {"GoSched.repoGetNext", "pair", false},
+	"Scheduler.repo.NextScheduled":        {"GoSched.repoNextScheduled", "pair", false},
+	"Scheduler.repo.MarkAsDone":           {"GoSched.repoMarkAsDone", "pair", false},
+	"Scheduler.repo.MarkAsDispatched":     {"GoSched.repoMarkAsDispatched", "pair", false},
+	"Scheduler.repo.GetById":              {"GoSched.repoGetById", "pair", false},
+	"Scheduler.dispatcher.Dispatch":       {"GoSched.dispatch", "pair", false},
+	"Scheduler.eventQueue.Reserve":        {"GoSched.reserve", "state", false},
+	"Scheduler.clock.Now":                 {"GoSched.clockNow", "pure", false},
+	// the cron store's timer (cron/cron.go): the schedule heap is a glue container
+	"CronStore.schedule.Len":  {"GoCron.schedLen", "pure", false},
+	"CronStore.schedule.Peek": {"GoCron.schedPeek", "pure", false},
 	// the observable wrapper (repository/repository.go): the core repository and the hook timer behind interfaces
 	"Repository.Repository.AddTask":          {"GoObs.coreAddTask", "pair", false},
 	"Repository.Repository.UpdateById":       {"GoObs.coreUpdateById", "pair", false},
@@ -161,6 +181,9 @@ var recvMethods = map[string]string{"InMemoryRepository.init": "GoMem.init"}
 
 // library functions that change their first argument in place
 var inplaceFuncs = map[string]string{"slices.SortStableFunc": "Go.slices_SortStableFunc"}
+
+// pointer fields that may be nil: an Option in the glue type
+var optPtrFields = map[string]bool{"Scheduler.lastTask": true}
 
 var refStore = map[string]string{"InMemoryRepository": "GoMem.storeTask"}
 
@@ -235,6 +258,14 @@ func (t *translator) trType(e ast.Expr) string {
 	}
 	t.fail(e, "unsupported type expression %T", e)
 	return ""
+}
+
+// exprString2 also renders calls without arguments
+func exprString2(e ast.Expr) string {
+	if c, ok := e.(*ast.CallExpr); ok && len(c.Args) == 0 {
+		return exprString(c.Fun) + "()"
+	}
+	return exprString(e)
 }
 
 func exprString(e ast.Expr) string {
@@ -382,6 +413,7 @@ var externalFuncs = map[string]string{
 	"def.IsRepositoryErr": "Go.def_IsRepositoryErr", "def.ErrInvalidTask": "Go.def_ErrInvalidTask",
 	"time.Date": "Go.time_Date", "time.April": "Go.time_April",
 	"time.ParseDuration": "Go.time_ParseDuration", "strconv.ParseInt": "Go.strconv_ParseInt",
+	"errors.Is": "Go.errors_Is", "context.Canceled": "Go.context_Canceled", "def.IsDefError": "Go.def_IsDefError",
 }
 
 func (t *translator) isPkg(e ast.Expr) (string, bool) {
@@ -393,7 +425,7 @@ func (t *translator) isPkg(e ast.Expr) (string, bool) {
 		return id.Name, true
 	}
 	switch id.Name {
-	case "strings", "slices", "maps", "option", "time", "fmt", "errors", "strconv":
+	case "strings", "slices", "maps", "option", "time", "fmt", "errors", "strconv", "context":
 		return id.Name, true
 	}
 	return "", false
@@ -446,6 +478,11 @@ func (t *translator) trExpr(e ast.Expr) string {
 		if id, ok := x.X.(*ast.Ident); ok && t.optPtr[id.Name] {
 			return "(" + leanIdent(id.Name) + ").Value"
 		}
+		if sel, ok := x.X.(*ast.SelectorExpr); ok {
+			if id, ok := sel.X.(*ast.Ident); ok && id.Name == t.recv && optPtrFields[t.recvType+"."+sel.Sel.Name] {
+				return "(" + t.trExpr(x.X) + ").Value"
+			}
+		}
 		return t.trExpr(x.X)
 	case *ast.UnaryExpr:
 		switch x.Op {
@@ -453,6 +490,8 @@ func (t *translator) trExpr(e ast.Expr) string {
 			return "(!" + t.trExpr(x.X) + ")"
 		case token.SUB:
 			return "(-" + t.trExpr(x.X) + ")"
+		case token.ARROW:
+			return "(Go.chanRecv " + t.trExpr(x.X) + ")"
 		case token.AND:
 			if cl, ok := x.X.(*ast.CompositeLit); ok {
 				return t.trExpr(cl)
@@ -515,7 +554,50 @@ func (t *translator) trExpr(e ast.Expr) string {
 				return "(fun " + strings.Join(ps, " ") + " => " + t.trExpr(rs.Results[0]) + ")"
 			}
 		}
-		t.fail(x, "unsupported function literal (only `func(...) T { return e }`)")
+		// a closure that runs against the receiver it captures: fun params… recv => (recv', results…)
+		if t.recv != "" && (t.callsMutating(x.Body, t.recv, t.recvType) || assignsTo(x.Body, t.recv)) {
+			var ps []string
+			for _, p := range x.Type.Params.List {
+				for _, nm := range p.Names {
+					t.locals[nm.Name] = true
+					ps = append(ps, "("+leanIdent(nm.Name)+" : "+t.trType(p.Type)+")")
+				}
+			}
+			saveMut, saveN, saveOut := t.recvMut, t.nres, t.outParams
+			t.recvMut, t.outParams = true, nil
+			t.nres = 0
+			if x.Type.Results != nil {
+				for _, r := range x.Type.Results.List {
+					n := len(r.Names)
+					if n == 0 {
+						n = 1
+					}
+					t.nres += n
+				}
+			}
+			body := t.trStmts(x.Body.List, nil, 4)
+			t.recvMut, t.nres, t.outParams = saveMut, saveN, saveOut
+			ps = append(ps, "("+leanIdent(t.recv)+" : "+t.recvType+")")
+			return "(fun " + strings.Join(ps, " ") + " =>\n" + body + ")"
+		}
+		// a closure without effects on the receiver and with a block body
+		{
+			var ps []string
+			for _, p := range x.Type.Params.List {
+				for _, nm := range p.Names {
+					t.locals[nm.Name] = true
+					ps = append(ps, "("+leanIdent(nm.Name)+" : "+t.trType(p.Type)+")")
+				}
+			}
+			if len(ps) == 0 {
+				ps = []string{"(_ : Unit)"}
+			}
+			saveMut, saveN, saveOut := t.recvMut, t.nres, t.outParams
+			t.recvMut, t.outParams, t.nres = false, nil, 1
+			body := t.trStmts(x.Body.List, nil, 4)
+			t.recvMut, t.nres, t.outParams = saveMut, saveN, saveOut
+			return "(fun " + strings.Join(ps, " ") + " =>\n" + body + ")"
+		}
 	case *ast.IndexExpr:
 		// m[k] on a string map (single-value form)
 		return "(Go.mapIndex " + t.trExpr(x.X) + " " + t.trExpr(x.Index) + ")"
@@ -671,8 +753,20 @@ func (t *translator) trCall(c *ast.CallExpr) string {
 			}
 			t.fail(c, "unsupported external function %s", q)
 		}
+		if rc, key, ok := t.recvFieldKey(c); ok && recvEffects[key].kind == "pair" && t.hoistOn {
+			t.tmpN++
+			tmp := fmt.Sprintf("hv%d", t.tmpN)
+			r := leanIdent(t.recv)
+			t.hoistBuf = append(t.hoistBuf, "let ("+r+", "+tmp+") := ("+recvEffects[key].lean+" "+r+t.trArgs(rc.Args)+")")
+			return tmp
+		}
 		if rc, key, ok := t.recvFieldKey(c); ok && recvEffects[key].kind == "pure" {
 			return "(" + recvEffects[key].lean + " " + leanIdent(t.recv) + t.trArgs(rc.Args) + ")"
+		}
+		// a call of another translated method of the receiver's own type: fully qualified (the receiver type may be an
+		// abbreviation of a glue type, on which field notation would look in the glue type's namespace)
+		if id, ok := f.X.(*ast.Ident); ok && t.recv != "" && id.Name == t.recv && t.findFuncAnywhere(t.recvType+"."+f.Sel.Name) != nil {
+			return "(_root_.Gk.Gen." + t.curNS + "." + t.recvType + "." + leanIdent(f.Sel.Name) + " " + leanIdent(t.recv) + t.trArgs(c.Args) + ")"
 		}
 		// method call: Lean resolves it by the receiver's type
 		recv := t.trExpr(f.X)
@@ -698,6 +792,8 @@ type cont struct {
 	kind string // "end" (function end), "loop" (continue with the next element), "fold" (yield the accumulator)
 	vars string // fold: the accumulator pattern
 	brk  bool   // fold: the body may `break` (the accumulator starts with the flag brk_)
+	bind string // inline: a `return e` of the inlined closure body binds this variable and goes on with rest
+	bindType string
 	rest []ast.Stmt
 	next *cont
 }
@@ -754,6 +850,9 @@ func (t *translator) trStmts(stmts []ast.Stmt, k *cont, d int) string {
 			return ind(d) + "none"
 		case "fold":
 			return ind(d) + k.vars
+		case "inline":
+			t.fail(nil, "%s: an inlined closure body ends without `return`", t.curFile)
+			return ""
 		default:
 			return t.trStmts(k.rest, k.next, d)
 		}
@@ -773,6 +872,36 @@ func (t *translator) trStmts(stmts []ast.Stmt, k *cont, d int) string {
 	}
 	switch x := s.(type) {
 	case *ast.ReturnStmt:
+		// inside an inlined closure body: the value of the enclosing call expression
+		for c := k; c != nil; c = c.next {
+			if c.kind == "loop" || c.kind == "fold" {
+				break
+			}
+			if c.kind == "inline" {
+				if len(x.Results) != 1 {
+					t.fail(x, "inlined closure must return exactly one value")
+				}
+				t.hoistOn, t.hoistBuf = true, nil
+				v := t.trExpr(x.Results[0])
+				pre := ""
+				for _, h := range t.hoistBuf {
+					pre += ind(d) + h + "\n"
+				}
+				t.hoistOn, t.hoistBuf = false, nil
+				ty := ""
+				if c.bindType != "" {
+					ty = " : " + c.bindType
+				}
+				return pre + ind(d) + "let " + c.bind + ty + " := " + v + "\n" + t.trStmts(c.rest, c.next, d)
+			}
+		}
+		if len(x.Results) == 0 && len(t.namedRes) > 0 {
+			var rs []string
+			for _, n := range t.namedRes {
+				rs = append(rs, leanIdent(n))
+			}
+			return ind(d) + t.retValue(rs, inLoop)
+		}
 		if len(x.Results) == 1 {
 			if rc, key, ok := t.recvFieldKey(x.Results[0]); ok && recvEffects[key].kind == "pair" && t.recvMut {
 				// return recv.f.M(args): the call's (receiver', results…) IS what the method returns
@@ -783,14 +912,42 @@ func (t *translator) trStmts(stmts []ast.Stmt, k *cont, d int) string {
 				return ind(d) + v
 			}
 		}
+		if len(x.Results) == 1 && t.recvMut {
+			if c, ok := x.Results[0].(*ast.CallExpr); ok {
+				if sel, ok := c.Fun.(*ast.SelectorExpr); ok {
+					if id, ok := sel.X.(*ast.Ident); ok && id.Name == t.recv && t.mutating[t.recvType+"."+sel.Sel.Name] {
+						return ind(d) + t.trExpr(c) // (receiver', results…) of the callee is what this method returns
+					}
+				}
+			}
+		}
 		var rs []string
+		t.hoistOn, t.hoistBuf = true, nil
 		for _, r := range x.Results {
 			rs = append(rs, t.trExpr(r))
 		}
-		return ind(d) + t.retValue(rs, inLoop)
+		pre := ""
+		for _, h := range t.hoistBuf {
+			pre += ind(d) + h + "\n"
+		}
+		t.hoistOn, t.hoistBuf = false, nil
+		return pre + ind(d) + t.retValue(rs, inLoop)
 	case *ast.BlockStmt:
 		return t.trStmts(append(append([]ast.Stmt{}, x.List...), rest...), k, d)
 	case *ast.IfStmt:
+		// an effectful call in the right operand of || / && only runs when the left operand does not decide:
+		//   if A || B {X} else {Y}  ≡  if A {X} else if B {X} else {Y};   if A && B {X} else {Y}  ≡  if A { if B {X} else {Y} } else {Y}
+		if be, ok := x.Cond.(*ast.BinaryExpr); ok && (be.Op == token.LOR || be.Op == token.LAND) && t.hasEffectCall(be.Y) {
+			var elseStmt ast.Stmt = x.Else
+			if be.Op == token.LOR {
+				inner := &ast.IfStmt{Cond: be.Y, Body: x.Body, Else: elseStmt}
+				outer := &ast.IfStmt{Init: x.Init, Cond: be.X, Body: x.Body, Else: inner}
+				return t.trStmts(append([]ast.Stmt{outer}, rest...), k, d)
+			}
+			inner := &ast.IfStmt{Cond: be.Y, Body: x.Body, Else: elseStmt}
+			outer := &ast.IfStmt{Init: x.Init, Cond: be.X, Body: &ast.BlockStmt{List: []ast.Stmt{inner}}, Else: elseStmt}
+			return t.trStmts(append([]ast.Stmt{outer}, rest...), k, d)
+		}
 		var b strings.Builder
 		pre := ""
 		if x.Init != nil {
@@ -814,7 +971,12 @@ func (t *translator) trStmts(stmts []ast.Stmt, k *cont, d int) string {
 			}
 		}
 		if cond == "" {
+			t.hoistOn, t.hoistBuf = true, nil
 			cond = t.trExpr(x.Cond)
+			for _, h := range t.hoistBuf {
+				b.WriteString(ind(d) + h + "\n")
+			}
+			t.hoistOn, t.hoistBuf = false, nil
 		}
 		b.WriteString(ind(d) + "if " + cond + " then\n")
 		b.WriteString(t.trStmts(x.Body.List, seq(), d+1) + "\n")
@@ -982,8 +1144,95 @@ func (t *translator) trStmts(stmts []ast.Stmt, k *cont, d int) string {
 				}
 			}
 		}
+		// select over {context done, a result of a finished work function, the repository's timer}: which case fires
+		// is the receiver's oracle `GoSched.selectCase`
+		if len(x.Body.List) == 3 && t.recv != "" {
+			r := leanIdent(t.recv)
+			var b strings.Builder
+			b.WriteString(ind(d) + "let (" + r + ", selCase) := (GoSched.selectCase " + r + ")\n")
+			b.WriteString(ind(d) + "match selCase with\n")
+			okAll := true
+			for _, cl := range x.Body.List {
+				cc := cl.(*ast.CommClause)
+				switch cm := cc.Comm.(type) {
+				case *ast.ExprStmt: // case <-ch:
+					u, ok := cm.X.(*ast.UnaryExpr)
+					if !ok || u.Op != token.ARROW {
+						okAll = false
+						continue
+					}
+					switch src := exprString2(u.X); {
+					case src == "ctx.Done()":
+						b.WriteString(ind(d) + "| .ctxDone =>\n" + t.trStmts(cc.Body, seq(), d+1) + "\n")
+					case strings.HasSuffix(src, ".repo.TimerChannel()"):
+						b.WriteString(ind(d) + "| .timer =>\n" + t.trStmts(cc.Body, seq(), d+1) + "\n")
+					default:
+						okAll = false
+					}
+				case *ast.AssignStmt: // case res := <-ch:
+					u, ok := cm.Rhs[0].(*ast.UnaryExpr)
+					if !ok || u.Op != token.ARROW || !strings.HasSuffix(exprString2(u.X), ".taskResultCh") {
+						okAll = false
+						continue
+					}
+					v := exprString(cm.Lhs[0])
+					t.locals[v] = true
+					b.WriteString(ind(d) + "| .result " + leanIdent(v) + " =>\n" + t.trStmts(cc.Body, seq(), d+1) + "\n")
+				default:
+					okAll = false
+				}
+			}
+			if okAll {
+				return strings.TrimRight(b.String(), "\n")
+			}
+		}
 		t.fail(x, "unsupported select statement")
 	case *ast.AssignStmt, *ast.ExprStmt, *ast.DeclStmt, *ast.IncDecStmt:
+		if as, ok := x.(*ast.AssignStmt); ok && len(as.Lhs) == 1 && len(as.Rhs) == 1 {
+			if c, ok := as.Rhs[0].(*ast.CallExpr); ok && len(c.Args) == 1 {
+				if sel, ok := c.Fun.(*ast.SelectorExpr); ok && sel.Sel.Name == "Match" {
+					if cl, ok := c.Args[0].(*ast.CompositeLit); ok && strings.HasSuffix(exprString(cl.Type), "StepResultHandler") {
+						// v := x.Match(StepResultHandler{Variant: func(args) error {...}, ...}): the handler of x's variant runs
+						// once, inline; its `return e` is the value of the call
+						bind := leanIdent(exprString(as.Lhs[0]))
+						if as.Tok == token.DEFINE {
+							defer func() { t.locals[exprString(as.Lhs[0])] = true }()
+						}
+						var b strings.Builder
+						b.WriteString(ind(d) + "match " + t.trExpr(sel.X) + " with\n")
+						for _, e := range cl.Elts {
+							kv := e.(*ast.KeyValueExpr)
+							fl, ok := kv.Value.(*ast.FuncLit)
+							if !ok {
+								t.fail(kv, "handler is not a function literal")
+							}
+							name := exprString(kv.Key)
+							ctor := strings.ToLower(name[:1]) + name[1:]
+							var ps []string
+							for _, p := range fl.Type.Params.List {
+								for _, nm := range p.Names {
+									n := nm.Name
+									if n == "_" {
+										n = fmt.Sprintf("_h%d", len(ps))
+									} else {
+										t.locals[n] = true
+									}
+									ps = append(ps, leanIdent(n))
+								}
+							}
+							b.WriteString(ind(d) + "| ." + ctor + " " + strings.Join(ps, " ") + " =>\n")
+							bt := ""
+							if fl.Type.Results != nil && len(fl.Type.Results.List) == 1 {
+								bt = t.trType(fl.Type.Results.List[0].Type)
+							}
+							b.WriteString(t.trStmts(fl.Body.List, &cont{kind: "inline", bind: bind, bindType: bt, rest: rest, next: k}, d+1) + "\n")
+						}
+						b.WriteString(ind(d) + "| _ => Go.panic \"unknown state\"")
+						return b.String()
+					}
+				}
+			}
+		}
 		if es, ok := x.(*ast.ExprStmt); ok && isMutexStmt(es.X, t.recv) {
 			return t.trStmts(rest, k, d)
 		}
@@ -1088,6 +1337,20 @@ func (t *translator) recvFuncCall(e ast.Expr) (c *ast.CallExpr, eff recvEffect, 
 		args = append(args, a)
 	}
 	return c, eff, args, true
+}
+
+// hasEffectCall: the expression contains a call that changes the receiver (a non-pure recvEffect).
+func (t *translator) hasEffectCall(e ast.Expr) bool {
+	found := false
+	ast.Inspect(e, func(n ast.Node) bool {
+		if c, ok := n.(*ast.CallExpr); ok {
+			if _, key, ok := t.recvFieldKey(c); ok && recvEffects[key].kind != "pure" {
+				found = true
+			}
+		}
+		return true
+	})
+	return found
 }
 
 func isMutexStmt(e ast.Expr, recv string) bool {
@@ -1462,6 +1725,11 @@ func (t *translator) callsMutating(body *ast.BlockStmt, recv, rt string) bool {
 		if !ok {
 			return true
 		}
+		if _, _, ftype, m, ok := t.fieldCall(c); ok {
+			if k := fieldEffects[ftype+"."+m]; k == "pair" || k == "state" {
+				found = true
+			}
+		}
 		if sel, ok := c.Fun.(*ast.SelectorExpr); ok {
 			if id, ok := sel.X.(*ast.Ident); ok && id.Name == recv && t.mutating[rt+"."+sel.Sel.Name] {
 				found = true
@@ -1686,6 +1954,15 @@ func (t *translator) trFunc(f *ast.File, it glItem) string {
 		}
 	}
 	t.nres = len(res)
+	t.namedRes = nil
+	if fd.Type.Results != nil {
+		for _, r := range fd.Type.Results.List {
+			for _, nm := range r.Names {
+				t.namedRes = append(t.namedRes, nm.Name)
+				t.locals[nm.Name] = true
+			}
+		}
+	}
 	t.outParams = t.outParamsOf(fd)
 	if len(t.outParams) > 0 {
 		var o []string
@@ -1710,6 +1987,20 @@ func (t *translator) trFunc(f *ast.File, it glItem) string {
 		rty = "(" + strings.Join(res, " × ") + ")"
 	}
 	body := t.trStmts(fd.Body.List, nil, 1)
+	if len(t.namedRes) > 0 {
+		pre := ""
+		i := 0
+		for _, r := range fd.Type.Results.List {
+			for _, nm := range r.Names {
+				pre += ind(1) + "let " + leanIdent(nm.Name) + " : " + t.trType(r.Type) + " := default\n"
+				i++
+			}
+		}
+		body = pre + body
+	}
+	if it.enter != "" && t.recv != "" {
+		body = ind(1) + "let " + leanIdent(t.recv) + " := (" + it.enter + " " + leanIdent(t.recv) + ")\n" + body
+	}
 	pos := t.fset.Position(fd.Pos())
 	rel, _ := filepath.Rel(t.root, pos.Filename)
 	return fmt.Sprintf("/-- %s:%d `%s` -/\ndef %s%s %s : %s :=\n%s\n", rel, pos.Line, it.name, name, tparams, strings.Join(params, " "), rty, body)
@@ -1844,6 +2135,37 @@ func init() {
 			it(f, "func", "Repository.AddTask", "Repository.GetById", "Repository.UpdateById", "Repository.Cancel",
 				"Repository.MarkAsDispatched", "Repository.MarkAsDone", "Repository.Find", "Repository.GetNext",
 				"Repository.LastTimerUpdateError", "Repository.StartTimer", "Repository.StopTimer", "Repository.NextScheduled"),
+		),
+	})
+}
+
+func init() {
+	f := "scheduler/scheduler.go"
+	step := glItem{file: f, kind: "func", name: "Scheduler.Step", enter: "GoSched.beginStep"}
+	glUnits = append(glUnits, glUnit{
+		out: "Gk/Gen/Scheduler.lean", ns: "Scheduler", pre: []string{"Gk.GenGlueSched"},
+		items: append(cat(
+			// the struct (interfaces, channels, mutex) is the glue type; StepState and its constructors (scheduler/state.go,
+			// an `any`-typed payload) are the glue's inductive type
+			[]glItem{{kind: "lean", name: "abbrev Scheduler := Gk.GoSched\nabbrev StepState := Gk.GoStepState\nabbrev taskResult := Gk.GoTaskResult\n" +
+				"def ErrScheduleStoppedOrChanged : GoError := Go.sched_ErrScheduleStoppedOrChanged\n" +
+				"def StateTimerUpdateError := GoStepState.timerUpdateError\ndef StateAwaitingNext := GoStepState.awaitingNext\n" +
+				"def StateNextTask := GoStepState.nextTask\ndef StateDispatchErr := GoStepState.dispatchErr\n" +
+				"def StateDispatched := GoStepState.dispatched\ndef StateTaskDone := GoStepState.taskDone"}},
+			it(f, "func", "Scheduler.setGetNextResult", "Scheduler.dispatchTask"),
+		), step, glItem{file: f, kind: "func", name: "Scheduler.Retry", enter: "GoSched.beginRetry"}),
+	})
+}
+
+func init() {
+	f := "cron/cron.go"
+	glUnits = append(glUnits, glUnit{
+		out: "Gk/Gen/Cron.lean", ns: "Cron", pre: []string{"Gk.GenGlueCron"},
+		items: cat(
+			// heap, entry map and mutator store are containers of the glue type; the timer logic is translated
+			[]glItem{{kind: "lean", name: "abbrev CronStore := Gk.GoCron"}},
+			it(f, "func", "CronStore.stopTimer", "CronStore.resetTimer", "CronStore.LastTimerUpdateError", "CronStore.StartTimer",
+				"CronStore.StopTimer", "CronStore.NextScheduled"),
 		),
 	})
 }
